@@ -172,13 +172,18 @@ func (a *adapterBase) worker(workerNum int, ctx interface{}) {
 		a.Trace("xfer: adapter %q worker %d auth signal received", a.Name(), workerNum)
 	}
 
+	// The callback handed to a transfer can outlive it (an abandoned HTTP
+	// request may still be reading its body), so several callbacks of this
+	// worker can fire: the other workers must be released exactly once.
+	var authOnce sync.Once
+
 	for job := range a.jobChan {
 		t := job.T
 
 		var authCallback func()
 		if signalAuthOnResponse {
 			authCallback = func() {
-				a.authWait.Done()
+				authOnce.Do(a.authWait.Done)
 				signalAuthOnResponse = false
 			}
 		}
@@ -199,7 +204,7 @@ func (a *adapterBase) worker(workerNum int, ctx interface{}) {
 	}
 	// This will only happen if no jobs were submitted; just wake up all workers to finish
 	if signalAuthOnResponse {
-		a.authWait.Done()
+		authOnce.Do(a.authWait.Done)
 	}
 	a.Trace("xfer: adapter %q worker %d stopping", a.Name(), workerNum)
 	a.transferImpl.WorkerEnding(workerNum, ctx)
